@@ -459,6 +459,16 @@ def runOp (op : String) (args : List String) : Option (String × String) :=
           | none => "NONE"
           | some (px, py) => "SOME " ++ hexFixed 32 px ++ hexFixed 32 py ++ "|" ++ hexFixed 32 px ++ ":" ++ hexFixed 32 py ++ ":" ++ hexFixed 32 1
         pure (m, sp)
+    | "set", [a, c, v] => do
+        let x ← pG1 a; let vv ← pFq v
+        let m : G1 ← match c with
+          | "x" => some { x with x := vv } | "y" => some { x with y := vv } | "z" => some { x with z := vv } | _ => none
+        let out := sG1 m ++ "|" ++ sFq m.x ++ ":" ++ sFq m.y ++ ":" ++ sFq m.z ++ "|" ++ sFq Api.g1B
+        -- spec: on the text itself (a setter replaces one coordinate and nothing else); b = 5
+        let parts := a.splitOn ":"
+        let i := if c == "x" then 0 else if c == "y" then 1 else 2
+        let t := ":".intercalate (parts.set i v)
+        pure (out, t ++ "|" ++ t ++ "|" ++ hexFixed 32 5)
     | "from_slice", [h] => do let bs ← parseBytes h; pure (okPt1 (Api.g1FromSlice bs), spG1Dec bs)
     | "from_uncompressed", [h] => do
         let bs ← parseBytes h
@@ -513,6 +523,16 @@ def runOp (op : String) (args : List String) : Option (String × String) :=
           | none => "NONE"
           | some (px, py) => "SOME " ++ sSQ2 px ++ sSQ2 py ++ "|" ++ sSQ2 px ++ ":" ++ sSQ2 py ++ ":" ++ sSQ2 (1, 0)
         pure (m, sp)
+    | "set", [a, c, v] => do
+        let x ← pG2 a; let vv ← pFq2 v
+        let m : G2 ← match c with
+          | "x" => some { x with x := vv } | "y" => some { x with y := vv } | "z" => some { x with z := vv } | _ => none
+        let out := sG2 m ++ "|" ++ sFq2 m.x ++ ":" ++ sFq2 m.y ++ ":" ++ sFq2 m.z ++ "|" ++ sFq2 Api.g2B
+        let parts := a.splitOn ":"
+        let i := if c == "x" then 0 else if c == "y" then 1 else 2
+        let t := ":".intercalate (parts.set i v)
+        -- b' = 5u: imaginary part 5, real part 0 (printed imaginary first)
+        pure (out, t ++ "|" ++ t ++ "|" ++ hexFixed 32 5 ++ hexFixed 32 0)
     | "from_slice", [h] => do let bs ← parseBytes h; pure (okPt2 (Api.g2FromSlice bs), spG2Dec bs)
     | "from_uncompressed", [h] => do
         let bs ← parseBytes h
